@@ -32,7 +32,7 @@ def main():
     if a.only:
         for u in units:
             for o in u.failed:
-                print("FAILED", u.name, o["property"], o["description"], json.dumps(u.inputs)[:600])
+                print("FAILED", u.name, o["property"], o["description"], json.dumps({k: (v.get("data") if isinstance(v, dict) else v) for k, v in (u.inputs or {}).items()})[:3000])
             if u.status == "undecided":
                 print("UNDECIDED", u.name, u.reason)
         return 0
